@@ -707,7 +707,7 @@ Proof.
   apply fold_iss_frozen; auto.
   intros y Hy Heq. subst m.
   pose proof (existsb_false_In _ _ _ Eg Hy) as Hq. cbv beta in Hq. rewrite Hm, Hf in Hq.
-  cbn [orb] in Hq. rewrite orb_true_r in Hq. discriminate.
+  rewrite orb_true_r in Hq. discriminate.
 Qed.
 
 (* the multi-part operations, the finalizers (and the caller's flag change) *)
@@ -795,16 +795,12 @@ Proof. eexists; split; [vm_compute; reflexivity|]. vm_compute. reflexivity. Qed.
    parser accepts 0..7), and the scalar a non-last blinder publishes comes from its generator (the parser rejects
    a scalar that occurs twice). The theorem takes operation lists in which the caller's flags are three bits and
    the generator's scalars are fresh.
-   A third condition is a DEFECT of the code as it is (known finding, kept visible by the _refuted witnesses below):
-   the blinder accepts an issuance value commitment of any length for an input without issuance value, and a nonce
-   commitment of 33 bytes that is not a curve point; it writes both and the parser refuses them. The theorem is
-   therefore a _partial: it takes blinder calls whose commitments are well formed. *)
+   (Until fix a3c85bd a third condition was needed: the blinder wrote an issuance value commitment of any length
+   and a nonce commitment that is not a curve point; it refuses both now — Examples below.) *)
 Definition op_ok (p : pset) (o : op) : Prop :=
   match o with
   | OSetMod (Some f) => f < 8
-  | OBlind a => (bl_last a = true \/ existsb (fun y => y =? bl_scalar a) (g_scalars p) = false)
-                /\ forallb (fun x => negb (snd x =? 2)) (bl_iss a) = true      (* issuance commitments of 33 bytes *)
-                /\ forallb (fun x => negb (snd x =? 3)) (bl_outs a) = true     (* nonce commitments that are points *)
+  | OBlind a => bl_last a = true \/ existsb (fun y => y =? bl_scalar a) (g_scalars p) = false
   | _ => True
   end.
 Fixpoint good_run (p : pset) (ops : list op) : Prop :=
@@ -1148,6 +1144,17 @@ Proof.
       apply andb_prop in Hx as [Hx _]. rewrite Hx; reflexivity.
 Qed.
 
+Lemma outargs_validate_cls : forall p last l, outargs_validate p last l = true ->
+  forallb (fun x => negb (snd x =? 3)) l = true.
+Proof.
+  intros p last; induction l as [|[i c] l IH]; intro H; cbn in *; auto.
+  destruct (Z.of_N (g_nout p) - 1 <? Z.of_N i)%Z; [discriminate|].
+  destruct (nth_error (p_outs p) (N.to_nat i)); [|discriminate].
+  destruct (negb (needs_blinding_o o)); [discriminate|].
+  destruct (c =? 1); [discriminate|]. destruct (c =? 3); [discriminate|]. cbn [negb andb].
+  match type of H with (if ?b then _ else _) = _ => destruct b end; [discriminate|]. auto.
+Qed.
+
 Lemma do_blind_J : forall p a, J p -> op_ok p (OBlind a) ->
   J (fst (let '((auxs, outs, sc), r) := do_blind p a in (upd p auxs outs sc, r))).
 Proof.
@@ -1163,8 +1170,8 @@ Proof.
   destruct (owned_validate p (p_auxs p) (bl_owned a)) as [auxs1|auxs1 o1]; cbn [bres_auxs] in F1; subst auxs1;
     [|inversion H; subst; apply J_same; auto].
   destruct (is_fully_blinded p); [inversion H; subst; apply J_same; auto|].
-  match type of H with (if ?b then _ else _) = _ => destruct b end; [inversion H|].
-  destruct (negb (outargs_validate p (bl_last a) (sort_by_idx (bl_outs a)))); [inversion H|].
+  match type of H with (if ?b then _ else _) = _ => destruct b eqn:Eg end; [inversion H|].
+  destruct (outargs_validate p (bl_last a) (sort_by_idx (bl_outs a))) eqn:Ev; cbn [negb] in H; [|inversion H].
   pose proof (prevout_loop_same (bl_owned a) (p_cores p) 0 (p_auxs p)) as F2.
   destruct (prevout_loop (p_cores p) 0 (p_auxs p) (bl_owned a)) as [auxs2|auxs2 o2]; cbn [bres_auxs] in F2; subst auxs2;
     [|inversion H; subst; apply J_same; auto].
@@ -1175,11 +1182,13 @@ Proof.
   destruct (negb done); [inversion H|].
   match type of H with (if ?b then _ else _) = _ => destruct b eqn:Esan end; inversion H; subst.
   apply J_upd; auto.
-  - cbn in Hok. destruct Hok as (Hok & _ & _). destruct (bl_last a); [reflexivity|]. destruct Hok as [Hok|Hok]; [discriminate|].
+  - cbn in Hok. destruct (bl_last a); [reflexivity|]. destruct Hok as [Hok|Hok]; [discriminate|].
     apply nodup_n_snoc; auto. apply (J_sc _ Hj).
-  - cbn in Hok. destruct Hok as (_ & W & _). apply fold_iss_rp; auto. apply (J_auxs _ Hj).
-  - cbn in Hok. destruct Hok as (_ & _ & W). eapply blind_outs_rp; eauto; [|apply (J_outs _ Hj)].
-    apply sort_by_idx_forallb; auto.
+  - apply fold_iss_rp; [|apply (J_auxs _ Hj)].
+    (* the guard refused every class-2 entry *)
+    apply forallb_forall; intros y Hy. pose proof (existsb_false_In _ _ _ Eg Hy) as Hq. cbv beta in Hq.
+    apply orb_false_elim in Hq as [_ Hq]. rewrite Hq; reflexivity.
+  - eapply blind_outs_rp; [exact Eb| |apply (J_outs _ Hj)]. rewrite Es. exact (outargs_validate_cls _ _ _ Ev).
 Qed.
 
 (* the signer's work on one input *)
@@ -1349,29 +1358,24 @@ Proof.
   induction ops as [|o ops IH]; intros p Hj Hg; cbn in *; auto. destruct Hg as [H1 H2]. apply IH; auto. apply step_J; auto.
 Qed.
 
-(* ===== after any operation history the packet serialises and re-parses to itself =====
-   full statement: forall ins outs fb p0 ops, init ins outs fb = IOk p0 -> rt (run p0 ops) = true *)
-Theorem reachable_roundtrips_partial : forall ins outs fb p0 ops,
+(* ===== after any operation history the packet serialises and re-parses to itself ===== *)
+Theorem reachable_roundtrips : forall ins outs fb p0 ops,
   init ins outs fb = IOk p0 -> good_run p0 ops -> rt (run p0 ops) = true.
 Proof. intros ins outs fb p0 ops H Hg. apply J_rt. apply good_run_J; auto. eapply init_J; eauto. Qed.
 
-(* refuted for the code as it is: a blinder call that returns no error and leaves a packet the parser refuses *)
+(* the pre-fix counterexamples (before fix a3c85bd these calls returned no error and left a packet the parser refuses):
+   a 5-byte issuance value commitment for an input without issuance value, a nonce commitment that is not a point *)
 Definition blind_one (iss : list (N * N)) (ocls : N) : blind_args :=
   {| bl_last := true; bl_owned := [0]; bl_iss := iss; bl_outs := [(0, ocls)]; bl_surj := true; bl_basset := true;
      bl_range := true; bl_bvalue := true; bl_gfail := 0; bl_scalar := 9 |}.
 Definition one_conf_out : list outarg :=
   [{| oa_cls := 0; oa_amount := 1000; oa_script := Some (SWpkh 1); oa_bk := 1; oa_bidx := 0 |}].
 
-Theorem reachable_roundtrips_refuted_issuance_commitment_length :
+Example blinder_refuses_malformed_commitments :
   exists p0, init [mk_in 0 0 0 0] one_conf_out None = IOk p0 /\
     let p := run p0 [OWUtxo 0%Z (Some {| u_script := SWpkh 0; u_conf := false |})] in
-    rt p = true /\ snd (step p (OBlind (blind_one [(0, 2)] 0))) = Ok /\ rt (fst (step p (OBlind (blind_one [(0, 2)] 0)))) = false.
-Proof. eexists; split; [vm_compute; reflexivity|]. vm_compute. auto. Qed.
-
-Theorem reachable_roundtrips_refuted_nonce_commitment_not_a_point :
-  exists p0, init [mk_in 0 0 0 0] one_conf_out None = IOk p0 /\
-    let p := run p0 [OWUtxo 0%Z (Some {| u_script := SWpkh 0; u_conf := false |})] in
-    rt p = true /\ snd (step p (OBlind (blind_one [] 3))) = Ok /\ rt (fst (step p (OBlind (blind_one [] 3)))) = false.
+    step p (OBlind (blind_one [(0, 2)] 0)) = (p, Err) /\ step p (OBlind (blind_one [] 3)) = (p, Err)
+    /\ snd (step p (OBlind (blind_one [(0, 1)] 0))) = Ok.
 Proof. eexists; split; [vm_compute; reflexivity|]. vm_compute. auto. Qed.
 
 (* the side condition on the caller's flags is needed: a bit set above 7 is written and refused by the parser *)
